@@ -9,6 +9,7 @@ import (
 	"database/sql"
 	"fmt"
 	"regexp"
+	"sort"
 	"strconv"
 	"strings"
 
@@ -46,14 +47,25 @@ func (i *inspect) columns(ctx context.Context, t *schema.Table) error {
 			return fmt.Errorf("sqlite: %w", err)
 		}
 	}
+	if err := rows.Err(); err != nil {
+		return fmt.Errorf("sqlite: %w", err)
+	}
+	// Columns are scanned in table order (cid), but the `pk` field holds the position of
+	// the column within the primary key. Order the key parts by it: PRIMARY KEY (b, a).
+	if pk := t.PrimaryKey; pk != nil {
+		sort.SliceStable(pk.Parts, func(i, j int) bool { return pk.Parts[i].SeqNo < pk.Parts[j].SeqNo })
+		for i := range pk.Parts {
+			pk.Parts[i].SeqNo = i + 1
+		}
+	}
 	return autoinc(t)
 }
 
 // addColumn scans the current row and adds a new column from it to the table.
 func (i *inspect) addColumn(t *schema.Table, rows *sql.Rows) error {
 	var (
-		nullable, primary   bool
-		hidden              sql.NullInt64
+		nullable            bool
+		primary, hidden     sql.NullInt64
 		name, typ, defaults sql.NullString
 		err                 error
 	)
@@ -82,7 +94,7 @@ func (i *inspect) addColumn(t *schema.Table, rows *sql.Rows) error {
 		}
 	}
 	t.Columns = append(t.Columns, c)
-	if primary {
+	if primary.Int64 > 0 {
 		if t.PrimaryKey == nil {
 			t.SetPrimaryKey(&schema.Index{
 				Name:   "PRIMARY",
@@ -90,10 +102,11 @@ func (i *inspect) addColumn(t *schema.Table, rows *sql.Rows) error {
 				Table:  t,
 			})
 		}
-		// Columns are ordered by the `pk` field.
+		// The `pk` field is the 1-based position of the column in the
+		// primary key. Parts are ordered by it after all columns were read.
 		t.PrimaryKey.Parts = append(t.PrimaryKey.Parts, &schema.IndexPart{
 			C:     c,
-			SeqNo: len(t.PrimaryKey.Parts) + 1,
+			SeqNo: int(primary.Int64),
 		})
 	}
 	return nil
@@ -663,7 +676,7 @@ WHERE
 	AND sqlite_master.name NOT LIKE 'libsql_%'
 `
 	// Query to list table information.
-	columnsQuery = "SELECT `name`, `type`, (not `notnull`) AS `nullable`, `dflt_value`, (`pk` <> 0) AS `pk`, `hidden` FROM pragma_table_xinfo('%s') ORDER BY `cid`"
+	columnsQuery = "SELECT `name`, `type`, (not `notnull`) AS `nullable`, `dflt_value`, `pk`, `hidden` FROM pragma_table_xinfo('%s') ORDER BY `cid`"
 	// Query to list table indexes.
 	indexesQuery = "SELECT `il`.`name`, `il`.`unique`, `il`.`origin`, `il`.`partial`, `m`.`sql` FROM pragma_index_list('%s') AS il JOIN sqlite_master AS m ON il.name = m.name"
 	// Query to list index columns.
